@@ -293,13 +293,47 @@ fn check_archive(ctx: &mut Ctx, env: &Env, arch: &str, o: &Opts, expected: &BTre
 }
 
 /// wrong key / no key / a key for an unencrypted archive: non-zero status, no output content
+/// An unencrypted archive whose header still carries encryption parameters: the header of an
+/// encrypted donor archive (same other layers, for key 0) with the ENCRYPT bit cleared, followed
+/// by the body of `arch`. It is not encrypted, so a private key must be refused as for `arch`.
+fn leftover_parameters_twin(env: &Env, arch: &str, o: &Opts, rng: &mut Rng) -> Option<String> {
+    std::fs::write(env.sb.join("donor-input"), b"donor").ok()?;
+    let donor = format!("donor-{}.mla", rng.next());
+    let mut args = vec![s("create")];
+    args.extend(layer_args(&Opts { layers: o.layers | 1, level: None, nkeys: 1 }, env));
+    args.extend([s("-o"), donor.clone(), s("donor-input")]);
+    if run(env, &args).code != Some(0) {
+        return None;
+    }
+    let d = std::fs::read(env.sb.join(&donor)).ok()?;
+    let a = std::fs::read(env.sb.join(arch)).ok()?;
+    let dh = model::fmt::dec_header(&d).ok()?;
+    let ah = model::fmt::dec_header(&a).ok()?;
+    let mut forged = d[..dh.len].to_vec();
+    *forged.get_mut(7)? &= !1;
+    forged.extend_from_slice(&a[ah.len..]);
+    let name = format!("leftover-{}.mla", rng.next());
+    std::fs::write(env.sb.join(&name), forged).ok()?;
+    Some(name)
+}
+
 fn check_key_clause(ctx: &mut Ctx, env: &Env, arch: &str, o: &Opts, first_file: Option<&String>, rng: &mut Rng) -> Result<(), Violation> {
-    let variants: Vec<(&str, Vec<String>)> = if o.layers & 1 != 0 {
-        vec![("wrong-key", vec![s("-k"), env.wrong.0.clone()]), ("no-key", vec![])]
+    let mut variants: Vec<(&str, Vec<String>, String)> = if o.layers & 1 != 0 {
+        vec![("wrong-key", vec![s("-k"), env.wrong.0.clone()], s(arch)), ("no-key", vec![], s(arch))]
     } else {
-        vec![("key-for-unencrypted-archive", vec![s("-k"), env.keys[0].0.clone()])]
+        vec![("key-for-unencrypted-archive", vec![s("-k"), env.keys[0].0.clone()], s(arch))]
     };
-    for (label, ka) in variants {
+    if o.layers & 1 == 0 {
+        if let Some(twin) = leftover_parameters_twin(env, arch, o, rng) {
+            // sanity: without a key it reads like the original (otherwise the twin is not what it is meant to be)
+            if run(env, &[s("list"), s("-i"), twin.clone()]).code == Some(0) {
+                ctx.count("keyclause:unencrypted_archive_with_leftover_encryption_parameters");
+                variants.push(("key-for-unencrypted-archive-with-leftover-parameters", vec![s("-k"), env.keys[0].0.clone()], twin));
+            }
+        }
+    }
+    for (label, ka, arch) in variants {
+        let arch = arch.as_str();
         let outs = [format!("kc-{}.out", rng.next()), format!("kc-{}.dir", rng.next())];
         let mut cmds: Vec<(&str, Vec<String>, Option<String>)> = vec![
             ("list", vec![s("list"), s("-i"), s(arch)], None),
